@@ -38,11 +38,24 @@ struct Params
   std::vector<Switch> trace; // TRACE only
   bool record_trace = false;
   long max_yields = 0; // 0: no cap; otherwise the process exits with code 79 when exceeded
+  // PCT only: place the priority change points at runtime entries (chunk hand-out, single, critical, lock, barrier) instead
+  // of arbitrary memory accesses: a thread is then parked right after it won a `single`, left a critical section or took a
+  // chunk -- the places where a missing barrier or a check-then-act race opens its window
+  bool pct_sync = false;
+  long est_syncs = 1000;
+  // any strategy: park the thread that is the park_k-th (counted over all threads) to complete a runtime event of the given
+  // kind -- 1 won a `single`, 2 released a lock / left a critical section, 3 acquired a lock / entered a critical section,
+  // 4 was handed a loop chunk -- until no other thread can run.  That is the situation a missing barrier or a check-then-act
+  // race needs: the thread that should have published something is held back while everybody else runs ahead.
+  int park_event = 0;
+  int park_k = 1;
 };
 
 struct Stats
 {
   long yields = 0;      // yield points passed inside outermost parallel regions
+  long syncs = 0;       // of which runtime entries
+  long parked = 0;      // park events that fired
   long switches = 0;    // context switches that actually happened
   long forced = 0;      // of which forced (running thread blocked or finished)
   long regions = 0;     // outermost parallel regions with > 1 thread
